@@ -789,7 +789,7 @@ func (s *Sched) stop() {
 	_ = s.stopWatchers()
 }
 
-// ReconcileAll runs one extra reconcile of every transaction, proposal and
+// ReconcileAll runs one extra reconcile of every transaction and of the
 // configuration through every controller and returns the number of store
 // writes, topology writes and device calls that caused (fixed-point oracle).
 func (s *Sched) ReconcileAll() (int, error) {
